@@ -314,6 +314,10 @@ def run(prog: Program, res: Result) -> None:  # noqa: PLR0912, PLR0915
     del ex
 
     # ------------------------------------------------------------------ R7 the hex digit table of \\uXXXX
+    res.rule("C20.R8", "a literal denotes exactly the characters written: no Unicode normalisation or case folding of literals, names or path segments in liquid2 (`a[\"e\\u0301\"]` must read the key e + U+0301, not the precomposed é)")
+    from checks.shared import check_no_text_normalisation
+
+    check_no_text_normalisation(prog, res, "C20.R8")
     res.rule("C20.R7", "_parse_hex_digits accepts exactly the 22 hexadecimal digits and gives each its value: the chain of constant comparisons on the code unit, read as a table over all 128 ASCII code units, equals int(chr(c), 16) on 0-9 A-F a-f and rejects every other unit; the accumulated value is shifted by 4 bits per digit")
     ph = prog.fn_opt("liquid2/unescape.py", "_parse_hex_digits")
     if ph is None:
